@@ -203,7 +203,7 @@ def filename_checks(ctx, cases, feature="filename"):
 
 
 # ------------------------------------------------------------------ API.build on skeletons
-FNAMES = ["k8s_min", "k8s.min", "k8s_min", "k8s.min", "library", "resources", "My-File", "foo.bar", "class", "CamelCase2FA", "metadata", "import", "HTTPApi", "a_b", "x.y.z",
+FNAMES = ["_shared", "__private", "_shared", "k8s_min", "k8s.min", "k8s_min", "k8s.min", "library", "resources", "My-File", "foo.bar", "class", "CamelCase2FA", "metadata", "import", "HTTPApi", "a_b", "x.y.z",
           "request", "lambda", "Types", "service2", "class_", "__init__"]
 
 
@@ -302,10 +302,10 @@ def run_pure(ctx):
 # ------------------------------------------------------------------ end to end: requests
 # (file stem -> module name the generator must give it): fixed reference table, not computed by the model or by /repo
 # k8s_min / k8s.min: the dotted name is sanitised to k8s_min, which is taken when k8s_min.proto comes first -> k8s_min_
-FILE_POOL = [("k8s_min", "k8s_min"), ("k8s.min", "k8s_min"), ("library", "library"), ("resources", "resources"), ("My-File", "my-_file"), ("foo.bar", "foo_bar"), ("class", "class_"),
+FILE_POOL = [("k8s_min", "k8s_min"), ("k8s.min", "k8s_min"), ("_shared", "_shared"), ("__private", "__private"), ("library", "library"), ("resources", "resources"), ("My-File", "my-_file"), ("foo.bar", "foo_bar"), ("class", "class_"),
              ("CamelCase2FA", "camel_case_2fa"), ("metadata", "metadata_"), ("import", "import_"), ("HTTPApi", "http_api"),
              ("a_b", "a_b"), ("x.y.z", "x_y_z"), ("request", "request_"), ("Types", "types"), ("service2", "service2")]
-SVC_POOL = [("Library", "library"), ("BigQueryAdmin", "big_query_admin"), ("IAM", "iam"), ("Aux2B", "aux_2b"), ("X", "x"),
+SVC_POOL = [("_Internal", "_internal"), ("Library", "library"), ("BigQueryAdmin", "big_query_admin"), ("IAM", "iam"), ("Aux2B", "aux_2b"), ("X", "x"),
             ("FleetOps", "fleet_ops"), ("Services_", "services_")]
 E2E_NS = [[], ["google"], ["google", "cloud"], ["acme", "data", "x1"], ["my_org"]]
 E2E_NAMES = ["library", "widgets", "big_query", "speech2text", "iam"]
@@ -338,9 +338,15 @@ def gen_request(r, defect=None):
         stems = [FILE_POOL[0], FILE_POOL[1]] + [x for x in stems if x not in FILE_POOL[:2]][:1]
         if r.random() < 0.3:
             stems[0], stems[1] = stems[1], stems[0]
+    if defect == "underscore":
+        us = [x for x in FILE_POOL if x[0].startswith("_")]
+        stems = r.sample(us, r.randint(1, 2)) + [x for x in stems if not x[0].startswith("_")][:1]
+        r.shuffle(stems)
     if defect is None and r.random() < 0.08:
         defect = r.choice(["nested", "prefixdep"])
     svcs = r.sample(SVC_POOL, r.randint(0, 3))
+    if defect == "underscore" and r.random() < 0.6 and SVC_POOL[0] not in svcs:
+        svcs = [SVC_POOL[0]] + svcs[:2]
     files, mi = [], 0
     sub = r.choice(["sub", "types_ext", "admin"]) if (ver and r.random() < 0.3) or defect in ("nested", "subsvc") else None
     if stems[:2] in ([FILE_POOL[0], FILE_POOL[1]], [FILE_POOL[1], FILE_POOL[0]]) and len(stems) < 3 and defect not in ("nested", "subsvc"):
@@ -447,7 +453,7 @@ def reference(case):
     if nmov:
         name = nmov[-1]
     stem2mod, svc2mod = dict(FILE_POOL + [("top", "top")]), dict(SVC_POOL)
-    types, services = set(), set()
+    types, services, service_modules = set(), set(), set()
     ads = any(p.strip() == "python-gapic-templates=ads-templates" for p in case["params"])
     if ads:
         root = "/".join(ns + [name] + ([version] if version else []))       # ads-templates: %namespace/%name/%version/
@@ -475,13 +481,14 @@ def reference(case):
         types.add(f"{base}/types/{stem2mod[stem]}{extra[fp.name]}.py")
         for s in fp.service:
             services.add(f"{base}/services/{svc2mod[s.name]}")
+            service_modules.add(svc2mod[s.name])
     transports = "grpc"
     for p in case["params"]:
         if opt_key(p) == "transport" and "=" in p:
             transports = p.strip().split("=", 1)[1]
             break
     unv_disabled = bool(case.get("yaml"))
-    return {"ads": ads, "package": package, "root": root, "alias": "/".join(ns + [name]), "types": types, "services": services,
+    return {"ads": ads, "service_modules": service_modules, "package": package, "root": root, "alias": "/".join(ns + [name]), "types": types, "services": services,
             "versioned": bool(version), "multi_package": len(pkgs) > 1, "metadata": any(opt_key(p) == "metadata" for p in case["params"]),
             "transports": transports.split("+"), "unversioned_disabled": unv_disabled,
             "dep_only": [fp.name for fp in req.proto_file if fp.name not in req.file_to_generate]}
@@ -550,14 +557,21 @@ def oracle(ctx, case, res, ref):
     got_svcs = {m.group(1) for n in names for m in [re.match("(" + re.escape(root) + r"/(?:[^/]+/)*services/[^/]+)/", n)] if m}
     if got_svcs != ref["services"]:
         viol(f"service packages: unexpected {sorted(got_svcs - ref['services'])}, missing {sorted(ref['services'] - got_svcs)}")
+    if not ref["ads"]:
+        # the default tree documents every service in docs/<name>_<version>/<service>.rst
+        for m in sorted(ref["service_modules"]):
+            doc = f"docs/{root.split('/')[-1]}/{m}.rst"
+            if doc not in nameset:
+                viol(f"service module {m!r} has its package but {doc} is not emitted")
     for sdir in ref["services"]:
         for need in ("__init__.py", "client.py", "transports/__init__.py", "transports/base.py"):
             if f"{sdir}/{need}" not in nameset:
                 viol(f"service package {sdir} lacks {need}")
     for f in res.file:
         b = f.name.split("/")[-1]
-        if b.startswith("_") and b != "__init__.py":
-            viol(f"underscore-prefixed file emitted: {f.name}")
+        if b.startswith("_") and b != "__init__.py" and f.name not in ref["types"] and not any(
+                b in (m + ".rst", "test_" + m + ".py") for m in ref["service_modules"] if m.startswith("_")):
+            viol(f"underscore-prefixed file emitted that is neither the module of a target proto nor named after a service: {f.name}")
         if not (b == "__init__.py" or b == "py.typed") and py_empty(f.content):
             viol(f"empty module emitted: {f.name}")
     if not (res.supported_features & 1):
@@ -687,6 +701,7 @@ def run(ctx):
     for k, d in enumerate(["eq", "prefixdep", "nested", "subsvc", "dotted"]):
         cases += [c for c in (make_case(f"C11-e2e-{d}", i, d) for i in range(ctx.n(1, 6))) if c]
     cases += [c for c in (make_case("C11-e2e-ads", i, "ads") for i in range(ctx.n(5, 40))) if c]
+    cases += [c for c in (make_case("C11-e2e-underscore", i, "underscore") for i in range(ctx.n(4, 30))) if c]
     checks = run_e2e(ctx, cases)
     eval_e2e(ctx, checks, "c11e2e", len(cases))
 
